@@ -326,6 +326,17 @@ func (m *Machine) newEdgePts(t *rapid.T, typ string) data.Points {
 	if rapid.IntRange(0, 3).Draw(t, "extraEdgePoint") == 0 {
 		pts = append(pts, data.Point{Type: "role", Text: "x", Time: time.Unix(0, m.tick())})
 	}
+	if rapid.IntRange(0, 4).Draw(t, "noTombstonePoint") == 0 {
+		// an edge created by its node type alone is live: it holds no tombstone point at all
+		var out data.Points
+		for _, p := range pts {
+			if p.Type != data.PointTypeTombstone {
+				out = append(out, p)
+			}
+		}
+		pts = out
+		m.Flags["edgeWithoutTombstonePoint"] = true
+	}
 	return pts
 }
 
